@@ -22,7 +22,7 @@ Then write a DEMONSTRATION: a new test (e.g. a new `#[test]` in a NEW file under
 Steps:
 1. Read the anchored code; understand what makes the property hold.
 2. Design the change; apply it in the worktree.
-3. Make sure it compiles and that the existing tests closest to your change still pass with it: run the unit tests of the module(s) you touched and the one or two integration test files that exercise them, ALWAYS with a test-name filter (e.g. `cargo test --offline -j 6 -p jj-lib --test runner test_merged_tree`). Do NOT run a whole test binary unfiltered and do not build jj-cli's tests unless your change is in cli/: the complete suite is run afterwards by someone else, and the machine is shared. Think hard instead about which existing tests could notice your change, and read them. Say exactly what you ran.
+3. Make sure it compiles and that the existing tests closest to your change still pass with it: run the unit tests of the module(s) you touched and the one or two integration test files that exercise them, ALWAYS with a test-name filter (e.g. `cargo test --offline -j 6 -p jj-lib --test runner test_merged_tree`). Do NOT run a whole test binary unfiltered and do not build jj-cli's tests unless your change is in cli/: the complete suite is run afterwards by someone else, and the machine is shared. Think hard instead about which existing tests could notice your change, and read them. Say exactly what you ran. Known environment failures you can ignore (they fail identically on the unmodified tree): `test_git::test_fetch_*`, `test_git::test_push_deleted_tags` and most jj-cli git fetch/push/clone tests (the system git 2.39 lacks `fetch --porcelain`), the two gpgsm signing tests, and `test_local_working_copy::test_check_out_existing_file_cannot_be_removed` (runs as root).
 4. Write the demonstration and show it fails with the change and passes without (`git stash` / `git apply -R`).
 5. Leave these files in {wt}-out/ (create the directory): `patch.diff` (output of `git diff` for the source change ONLY, applicable with `git apply` at the repository root), `demo.diff` (the added demonstration test as a patch, or `demo/` with a standalone program plus README on how to run it), and `meta.json` with keys: property (the id), summary (what the change does), needs (what it needs in order to manifest), tests_run (commands you ran and their outcome), demo_cmd (exact command that runs the demonstration from the worktree root).
 6. Restore the worktree to a clean state at the end (`git checkout -- . && git clean -fd` but keep {wt}-out/ which is outside it). Delete {wt}/target when done to free disk.
